@@ -1,6 +1,7 @@
 package props
 
 import (
+	"github.com/aml-org/amf-custom-validator/pkg/events"
 	"encoding/json"
 	"fmt"
 	"sort"
@@ -21,6 +22,7 @@ type repCfg struct {
 	LexIri    string `json:"lexical_iri"`
 	Unix      int64  `json:"unix"`
 	ZoneMin   int    `json:"zone_min"`
+	Listen    bool   `json:"listen,omitempty"` // the call is given an event channel
 }
 
 func (c repCfg) clock() fixedClock {
@@ -57,6 +59,7 @@ func genRepCfg(t *rapid.T, label string) repCfg {
 			c.ZoneMin = 0
 		}
 	}
+	c.Listen = rapid.IntRange(0, 2).Draw(t, label+"Listen") == 0
 	return c
 }
 
@@ -193,6 +196,11 @@ func genC03(t *rapid.T) c03Case {
 
 func validateCfg(profile, data string, c repCfg) call {
 	return guard(func() (string, error) {
+		if c.Listen {
+			// a caller that listens to progress events: what the report says does not depend on it
+			ch := make(chan events.Event, 64)
+			return pkg.ValidateWithConfiguration(profile, data, false, &ch, c.clock(), c.report())
+		}
 		return pkg.ValidateWithConfiguration(profile, data, false, nil, c.clock(), c.report())
 	})
 }
